@@ -18,6 +18,7 @@ Recognised expressions E:
                               overloaded operator whose result type is Eigen::CwiseBinaryOp<scalar_{sum,difference,product,
                               quotient}_op<double, double>, ..>  (the functor is checked against the operator)
     -E                        Eigen::CwiseUnaryOp<scalar_opposite_op<double>, ..>
+    E.square()                Eigen::CwiseUnaryOp<scalar_square_op<double>, ..>: the coefficient times itself
     E * s, s * E, E + s ...   (only with hook(scalars=True)) an operand of C++ type double: Eigen's broadcast constant
     (E), E.array(), E.matrix(), E.transpose()
                               coefficient-preserving adaptors (transpose only on a 1-D operand of rowwise())
@@ -137,7 +138,76 @@ def hook(view1, view2=None, matvec=None, dest=(), scalars=False):
             me = u['inner'][0]
             if me.get('kind') == 'MemberExpr' and me.get('name') in ADAPTORS and len(u['inner']) == 1:
                 return kernel(cx, me['inner'][0], n_expr, k_expr, d2)
+            if me.get('kind') == 'MemberExpr' and me.get('name') == 'square' and len(u['inner']) == 1:
+                if not re.match(r'Eigen::CwiseUnaryOp<Eigen::internal::scalar_square_op<double>,', t):
+                    raise Unsupported(f'eigencw: square() with result type {t[:90]}')
+                a = cx.bind('double', kernel(cx, me['inner'][0], n_expr, k_expr, d2))
+                return arith(P, '*', a, a)
         raise Unsupported(f'eigencw: expression kind {k} of type {t[:90]} is not in the recognised list')
+
+    def first_leaf(P, n):
+        """the first 1-D view leaf of a coefficient-wise expression (evaluation order), or None"""
+        u = _strip(n)
+        if ctype_or_none(P, u) == view1:
+            return u
+        if u.get('kind') == 'CXXOperatorCallExpr':
+            for a in u['inner'][1:]:
+                r = first_leaf(P, a)
+                if r is not None:
+                    return r
+        if u.get('kind') == 'CXXMemberCallExpr' and u['inner'][0].get('kind') == 'MemberExpr' and len(u['inner']) == 1 \
+                and u['inner'][0].get('name') in ADAPTORS + ('square',):
+            return first_leaf(P, u['inner'][0]['inner'][0])
+        return None
+
+    def lifted(P, e, wrap):
+        """C statement-expression for a coefficient-wise expression e used as a VALUE: every leaf evaluated once, shape and
+        tracking agreement asserted against the first leaf, wrap(kernel at the ghost position, n, k) as the result"""
+        ref_node = first_leaf(P, e)
+        if ref_node is None:
+            return None
+        cx = Ctx(P, '')
+        ref = cx.bind(view1, P.expr(ref_node))
+        val = kernel(cx, e, f'{ref}.n', f'{ref}.k')
+        inside = f'(0 <= {ref}.k && {ref}.k < {ref}.n)'
+        z = '0.0'
+        return '({ ' + cx.pre.replace('\n', ' ') + cx.checks.replace('\n', ' ') + wrap(f'({inside} ? {val} : {z})', f'{ref}.n', f'{ref}.k') + '; })'
+
+    def reduce_hook(fname='nv_reduce_sum'):
+        """expression hook: E.sum() for a coefficient-wise 1-D expression E  ->  fname(<summand at the ghost position>, <length>).
+        ASSUMED contract of Eigen: sum() adds the coefficients of E; a reduction is determined by its summand at every position,
+        which the spec's stub receives at the one ghost position (a reduction of a square is NOT the square of a reduction:
+        the summands differ)"""
+        def rh(P, n):
+            if n.get('kind') != 'CXXMemberCallExpr' or len(n.get('inner', [])) != 1:
+                return None
+            me = n['inner'][0]
+            if me.get('kind') != 'MemberExpr' or me.get('name') != 'sum':
+                return None
+            ty = n.get('type', {})
+            if strip_cv(ty.get('desugaredQualType', ty.get('qualType', ''))) != 'double':
+                return None
+            r = lifted(P, me['inner'][0], lambda v, nn, kk: f'{fname}({v}, {nn})')
+            if r is None:
+                return None
+            P.note(f'eigencw: sum() of a coefficient-wise expression -> {fname}(summand at the ghost position, length)')
+            return r
+        return rh
+
+    def value_hook(value_struct):
+        """expression hook: a coefficient-wise operator expression used as a value, e.g. RETURNED from a function (`return r1(bin) /
+        x0(bin);` with a deduced Eigen expression type; statements `D = E` are taken by the statement hook before) -> (value_struct){ coefficient at the ghost position, length, ghost position }; the spec maps
+        the Eigen expression type to value_struct = struct { double g; int64_t n, k; }"""
+        def vh(P, n):
+            if n.get('kind') != 'CXXOperatorCallExpr':
+                return None
+            if ctype_or_none(P, n) != value_struct:
+                return None
+            r = lifted(P, n, lambda v, nn, kk: f'({value_struct}){{ {v}, {nn}, {kk} }}')
+            if r is not None:
+                P.note('eigencw: returned coefficient-wise expression -> value at the ghost position')
+            return r
+        return vh
 
     def h(P, n, ind):
         u = n
@@ -189,4 +259,6 @@ def hook(view1, view2=None, matvec=None, dest=(), scalars=False):
         P.note(f'eigencw: {shape} {name} lifted to the ghost position')
         return (f'{p}{{ /* eigencw: coefficient-wise statement at line {line} */\n{cx.pre}{cx.checks}'
                 f'{p}  if ({inside}) *{dv}.g = {val};\n{p}}}\n')
+    h.reduce_hook = reduce_hook
+    h.value_hook = value_hook
     return h
